@@ -350,25 +350,30 @@ def cls_op(case):
 
 
 def check_foreign(case) -> list[Fail]:
-    from hugr.hugr import Hugr
-
-    from vlib import foreign
     from vlib.props.c01 import run_program
-    from vlib.props.c03 import schema_fails
 
     r, _ = run_program(case["prog"])
     if r is None:
         raise InvalidCase("program does not build")
-    base = json.loads(r.hugr.to_json())
+    return foreign_roundtrip(r.hugr, case["rewrites"], case["k"])
+
+
+def foreign_roundtrip(hugr, rewrites, k) -> list[Fail]:
+    from hugr.hugr import Hugr
+
+    from vlib import foreign
+    from vlib.props.c03 import schema_fails
+
+    base = json.loads(hugr.to_json())
     # a foreign writer addresses ports by the specification, independently of hugr-py's writer:
     # rebuild the edge list from the links and the reference port addressing
     from vlib.props.c03 import expected_edges
 
-    base["edges"] = [[[s_, so], [t_, to]] for (s_, so, t_, to), c in sorted(expected_edges(r.hugr).items()) for _ in range(c)]
+    base["edges"] = [[[s_, so], [t_, to]] for (s_, so, t_, to), c in sorted(expected_edges(hugr).items()) for _ in range(c)]
     doc = base
     applied = 0
-    for i in case["rewrites"]:
-        doc, n = foreign.REWRITES[i % len(foreign.REWRITES)](doc, case["k"])
+    for i in rewrites:
+        doc, n = foreign.REWRITES[i % len(foreign.REWRITES)](doc, k)
         applied += n
     if foreign.canon_doc(doc) != foreign.canon_doc(_with_extra(base, doc)):
         raise InvalidCase("rewrite changed the document's meaning (harness)")
@@ -396,6 +401,50 @@ def check_foreign(case) -> list[Fail]:
     if a["metadata"] != b["metadata"]:
         f.append(Fail("foreign", "metadata", ""))
     return f[:6]
+
+
+ORDER_KINDS = ["Call", "LoadFunc", "CallIndirect", "LoadConst", "DFG", "CFG", "Conditional", "TailLoop", "Tag", "SomeTag", "LeftTag", "RightTag", "Continue", "Break", "Custom", "MakeTuple", "UnpackTuple", "Noop", "Not", "DivMod"]
+
+
+def order_probe(op):
+    """A DFG holding one node of the given operation between a predecessor and a successor in state order."""
+    import hugr.ops as hops
+    import hugr.tys as htys
+    from hugr.build.dfg import Dfg
+
+    sig = ref.ref_sig(op)
+    if not (sig["order_in"] or sig["order_out"]):
+        raise InvalidCase("no order ports")
+    d = Dfg()
+    d.set_outputs()
+    h = d.hugr
+    mk = lambda name: hops.Custom(name, htys.FunctionType([], []), extension="verif.ext")  # noqa: E731
+    a = h.add_node(mk("before"), d.parent_node)
+    x = h.add_node(mk_op(op), d.parent_node)
+    b = h.add_node(mk("after"), d.parent_node)
+    if sig["order_in"]:
+        h.add_order_link(a, x)
+    if sig["order_out"]:
+        h.add_order_link(x, b)
+    return h
+
+
+def check_order_ports(case) -> list[Fail]:
+    """One node of every dataflow operation kind between two order edges (predecessor -> node -> successor)
+    in a document written the way a foreign writer would (reference port addressing, optionally without
+    offsets): loading and re-saving keeps both edges where they are."""
+    import hugr.ops as hops
+    import hugr.tys as htys
+    from hugr.build.dfg import Dfg
+
+    op = case["op"]
+    h = order_probe(op)
+    return [Fail(f_.clause, f"{op['k']}:{f_.locus}", f_.msg) for f_ in foreign_roundtrip(h, case["rewrites"], case["k"])]
+
+
+def order_ports_strategy(tier):
+    ops_ = st.one_of(asts.op_asts(2, kinds=ORDER_KINDS), asts.op_asts(2, kinds=["Call", "LoadFunc", "LoadConst", "CallIndirect"]), asts.rowpoly_calls(2), asts.ext_ops(1))
+    return st.fixed_dictionaries({"op": ops_, "rewrites": st.sampled_from([[], [0], [0], [0, 4], [3, 0]]), "k": st.integers(0, 5)})
 
 
 def _with_extra(base, doc):
@@ -432,6 +481,8 @@ def foreign_calls_strategy(tier):
 SUBS = [
     Sub("foreign-calls", check_foreign, strategy=foreign_calls_strategy, nontrivial=lambda c: "explicit-order-edge" in c["prog"].get("classes", []), classes=lambda c: [x for x in c["prog"].get("classes", []) if x in ("explicit-order-edge", "load-function", "call")],
         n_quick=120, n_thorough=1500, sample_ok=lambda c: len(json.dumps(c)) < 3000),
+    Sub("order-ports", check_order_ports, strategy=order_ports_strategy, nontrivial=lambda c: c["op"]["k"] in ("Call", "LoadFunc", "LoadConst", "CallIndirect") or bool(c["rewrites"]),
+        classes=lambda c: [c["op"]["k"]] + (["without-offsets"] if 0 in c["rewrites"] else []), n_quick=300, n_thorough=3000),
     Sub("foreign", check_foreign, strategy=foreign_strategy, nontrivial=lambda c: True, classes=lambda c: ["rewrite:" + ["null-order", "general-unit", "drop-defaults", "metadata-holes", "encoder+key-order", "extra-attributes", "hierarchy-order"][i % 7] for i in c["rewrites"]],
         n_quick=250, n_thorough=2000, sample_ok=lambda c: len(json.dumps(c)) < 3000),
     Sub("types", check_type, strategy=lambda tier: asts.types(3 if tier == "quick" else 4).map(lambda t: {"t": t}), nontrivial=nt_depth("t"),
